@@ -333,13 +333,37 @@ def r5_every_reference_holder(ctx) -> None:
             # reviewed: the references inside an extended condition are names; __post_init__ compares them as text with the
             # `rules` list and raises SigmaCorrelationConditionError on any difference (checked here), so a condition cannot
             # silently name another rule than the list does; without a list the names become the references that are resolved
-            pi = prog.func(C + ".SigmaCorrelationRule.__post_init__")
-            src = unparse(pi.node)
-            if "referenced_rules - defined_rules" in src and "defined_rules - referenced_rules" in src and src.count("SigmaCorrelationConditionError") >= 2 \
-                    and "self.condition.get_referenced_rules()" in unparse(rr.node):
+            # __post_init__ interpreted (sa.tabulate, Proxy) on rule lists and extended conditions that agree and that differ
+            import types as _types9
+            from ..tabulate import Proxy as _P9, call_method as _cm9, Raised as _R9
+            CR9 = C + ".SigmaCorrelationRule"
+            class SigmaExtendedCorrelationCondition:
+                def __init__(self, names): self.names = names
+                def get_referenced_rules(self): return list(self.names)
+            class SigmaCorrelationCondition: fieldref = "f"
+            class _SErr(Exception):
+                def __init__(self, *a, **k): super().__init__(*a)
+            exc9 = _types9.SimpleNamespace(SigmaCorrelationRuleError=type("SigmaCorrelationRuleError", (_SErr,), {}), SigmaCorrelationConditionError=type("SigmaCorrelationConditionError", (_SErr,), {}))
+            T9 = _types9.SimpleNamespace(**{n_: n_ for n_ in ("EVENT_COUNT", "VALUE_COUNT", "VALUE_SUM", "VALUE_AVG", "VALUE_PERCENTILE", "VALUE_MEDIAN", "TEMPORAL", "TEMPORAL_ORDERED")})
+            env9 = {"SigmaExtendedCorrelationCondition": SigmaExtendedCorrelationCondition, "SigmaCorrelationCondition": SigmaCorrelationCondition, "sigma_exceptions": exc9,
+                    "SigmaCorrelationRuleError": exc9.SigmaCorrelationRuleError, "SigmaCorrelationConditionError": exc9.SigmaCorrelationConditionError, "SigmaCorrelationType": T9,
+                    "super": lambda: _types9.SimpleNamespace(__post_init__=lambda: None)}
+            IK9 = {"max_steps": 4000, "behaviours": (_SErr,)}
+            outs9 = {}
+            for nm9, rules9, names9 in (("same", ["a", "b"], ["a", "b"]), ("same, other order", ["b", "a"], ["a", "b", "a"]), ("rule not in condition", ["a", "b"], ["a"]), ("condition names an undefined rule", ["a"], ["a", "b"]),
+                                        ("disjoint", ["a"], ["b"]), ("no list", None, ["a", "b"])):
+                me9 = _P9(prog, CR9, env9, {"rules": None if rules9 is None else [_types9.SimpleNamespace(reference=x) for x in rules9], "condition": SigmaExtendedCorrelationCondition(names9),
+                                           "type": "TEMPORAL", "source": None, "generate": False}, interp_kwargs=IK9)
+                try:
+                    _cm9(prog, CR9, "__post_init__", me9, env9, interp_kwargs=IK9)
+                    outs9[nm9] = "accepted"
+                except _R9 as ex:
+                    outs9[nm9] = "condition error" if "SigmaCorrelationConditionError" in str(ex) else f"raises {ex}"
+            want9 = {"same": "accepted", "same, other order": "accepted", "rule not in condition": "condition error", "condition names an undefined rule": "condition error", "disjoint": "condition error", "no list": "accepted"}
+            if outs9 == want9 and "self.condition.get_referenced_rules()" in unparse(rr.node):
                 r.ok("C09.R5", rr.qual, "field condition: its references are names checked against `rules` in both directions (error on mismatch) or become the resolved references", loc)
             else:
-                r.violation("C09.R5", rr.qual, "field condition", "the names in an extended condition are no longer checked against the rules list in both directions", loc)
+                r.violation("C09.R5", rr.qual, "field condition", f"the names in an extended condition are no longer checked against the rules list in both directions: { {k_: v_ for k_, v_ in outs9.items() if want9.get(k_) != v_} }", loc)
             continue
         if fname == "referenced_rules" or fname == "rules":
             r.ok("C09.R5", rr.qual, f"field {fname}: resolved by the loop over self.referenced_rules (C09.R2)", loc)
